@@ -129,9 +129,27 @@ def data_cases(rm, tier):
     return out
 
 
+RULE = ("every data mode (raw; raw,opt; typed; opt; instantiate; instantiate,opt; no marker) x data types {String,u32,Inner} x payload {raw, typed} "
+                       "(quick: packed into one program per shape; thorough: full product): data absent / every alphabet value in a well-formed envelope / "
+                       "malformed envelopes (empty, wrong wire type, wrong field, over-long varint, short body, every truncation of a valid envelope, trailing "
+                       "bytes) / envelope without inner data / inner JSON malformed (every truncation, wrong types, out of range), through the reply entry point "
+                       "and the multitest impl; oracle = documented mode table over a mirror of the envelope format; on error the handler must not run. "
+                       "non-trivial = every (name, data case)")
+
+
 def run(tier):
     res = core.Result("C09", tier)
-    cp, info = fam_reply.corpus(tier)
+    for features in ("full", "min"):
+        run_features(res, tier, features)
+    res.cov["rule"] = RULE
+    res.assumptions += ["the response envelope format is the one cw-utils parses (mirrored in Python); trailing bytes after the known fields are ignored by that format",
+                        "JSON-decoder-defined corner cases (surrounding whitespace, trailing characters) are only checked for 'no handler on error'",
+                        "replayed on two builds: every optional cargo feature of the framework on / only the mandatory ones"]
+    return res.finish()
+
+
+def run_features(res, tier, features):
+    cp, info = fam_reply.corpus(tier, features)
     ids = c07.get_ids(cp, info)
     cx = fam_basic.CONTEXTS[1]
     cases, exp = [], []
@@ -208,14 +226,7 @@ def run(tier):
                 val = "None"   # echoed through Debug
             if got != val:
                 bad("data parameter is %s, expected %s" % (json.dumps(got), json.dumps(val)), "value")
-    res.parts["cases"] = len(cases)
-    res.sample({"reply": cases[9]["input"], "program": cases[9]["prog"], "observation": obs[9]})
-    res.cov["rule"] = ("every data mode (raw; raw,opt; typed; opt; instantiate; instantiate,opt; no marker) x data types {String,u32,Inner} x payload {raw, typed} "
-                       "(quick: packed into one program per shape; thorough: full product): data absent / every alphabet value in a well-formed envelope / "
-                       "malformed envelopes (empty, wrong wire type, wrong field, over-long varint, short body, every truncation of a valid envelope, trailing "
-                       "bytes) / envelope without inner data / inner JSON malformed (every truncation, wrong types, out of range), through the reply entry point "
-                       "and the multitest impl; oracle = documented mode table over a mirror of the envelope format; on error the handler must not run. "
-                       "non-trivial = every (name, data case)")
-    res.assumptions += ["the response envelope format is the one cw-utils parses (mirrored in Python); trailing bytes after the known fields are ignored by that format",
-                        "JSON-decoder-defined corner cases (surrounding whitespace, trailing characters) are only checked for 'no handler on error'"]
-    return res.finish()
+    res.parts["cases_" + features] = len(cases)
+    if features == "full":
+        res.sample({"reply": cases[9]["input"], "program": cases[9]["prog"], "observation": obs[9]})
+
